@@ -293,6 +293,26 @@ func main() {
 		fmt.Println("add", b.BlockNo(), err, "best", best.BlockNo(), hx(best.BlockHash())[:8], "root", hx(n.cs.SDB().GetRoot())[:8], "bestroot", hx(best.GetHeader().GetBlocksRootHash())[:8])
 	}
 	fmt.Println("b1 root", hx(b1.Header.BlocksRootHash)[:8])
+	{
+		n2 := w.newNode()
+		x, e := p.build(p.gen, mk(0, 1, 7)) // nonce too high
+		fmt.Println("x build err", e)
+		y, e := p.build(p.gen, func(bi *types.BlockHeaderInfo) []*types.Tx {
+			tx := p.transfer(0, 1, 1, 5, bi)
+			tx.Body.Sign[9] ^= 0x40
+			tx.Hash = tx.CalculateTxHash()
+			return []*types.Tx{tx}
+		})
+		fmt.Println("y build err", e)
+		n3 := w.newNode()
+		fmt.Println("fresh node: add y (bad signature):", chain.VerifC05AddBlock(n3.cs, y, "peer"))
+		fmt.Println("n2: add x (bad nonce):", chain.VerifC05AddBlock(n2.cs, x, "peer"))
+		fmt.Println("n2: add y (bad signature):", chain.VerifC05AddBlock(n2.cs, y, "peer"))
+		best, _ := n2.cs.GetBestBlock()
+		fmt.Println("n2 best", best.BlockNo())
+		z, _ := p.build(y, mk(2, 1, 1))
+		fmt.Println("n2: add z (valid child of y):", chain.VerifC05AddBlock(n2.cs, z, "peer"))
+	}
 	t0 = time.Now()
 	n.close()
 	fmt.Println("close", time.Since(t0))
